@@ -234,6 +234,20 @@ def run_replays(specs, timeout=600, env_extra=None):
     p = subprocess.run([PY if os.path.exists(PY) else sys.executable, '-m', 'pvf.replay', '--batch'],
                        input=json.dumps(specs, default=str), capture_output=True, text=True,
                        env=env, cwd=VERIF, timeout=timeout)
+    if p.returncode < 0 or (p.returncode != 0 and any(k in p.stderr for k in ('invalid next size', 'corrupted', 'double free', 'Segmentation fault', 'munmap_chunk', 'malloc():', 'free():', 'realloc():'))):
+        # the interpreter running the REAL compiled code died (signal / heap corruption detected by
+        # glibc): find which replay does it, one subprocess each. A spec whose process dies is a
+        # violation of its own - an out-of-bounds write of the unchecked compiled kernel on a
+        # documented-legal call - provided the batch dies again on that spec alone.
+        if len(specs) == 1:
+            sig = -p.returncode if p.returncode < 0 else None
+            return [{'violated': True, 'crashed': True,
+                     'failed': ['the real code crashed the Python process%s: %s' % (' (signal %d)' % sig if sig else '', (p.stderr.strip().splitlines() or ['no message'])[-1][:200])],
+                     'detail': ['the real code crashed the Python process%s: %s' % (' (signal %d)' % sig if sig else '', (p.stderr.strip().splitlines() or ['no message'])[-1][:200])]}]
+        out = []
+        for sp in specs:
+            out += run_replays([sp], timeout=timeout, env_extra=env_extra)
+        return out
     if p.returncode != 0:
         raise HarnessError('replay subprocess failed: %s' % p.stderr[-2000:])
     lines = [l for l in p.stdout.splitlines() if l.startswith('REPLAY-RESULT ')]
